@@ -4,7 +4,7 @@ from .lib import cz, cbool, clist, coq_mismatches
 LEVEL = "proof"
 META = {
     "category": "proof",
-    "text": "Coq theorems over a model (Go integer widths explicit) of the pc->(line,col) table of internal/compile/compile.go: clip, the delta-encoding loop of fcomp.generate (4-bit pc, 5-bit line, 6-bit column deltas, continuation bit, uint16 packing), Funcode.decodeLNT and the binary search of Funcode.Position. lnt_roundtrip: for ALL instruction lists with uint32 pc and int32 line/col (any deltas, wrap-around included, any length) decodeLNT(encode rows) = the positioned rows; the encoder's inner loop terminates within a proved bound and never panics; position_lookup: the binary search returns the last row with pc' <= pc for every table length; the shift/mask bridge is a complete enumeration of the 65536 field combinations inside Coq. callstack_shape: over an abstract call/step/return/fail event machine mirroring starlark.Call / CallInternal (fr.pc saved before each instruction, push/pop, error wrapped once with a copy of the frame stack) the CallStack attached to the error is exactly the list of active calls, outermost first, each at its pending call / failing instruction. slice_carries_position: the repaired compiler puts the position of '[' on the SLICE instruction for every slice expression (History.v: the code before fix 103924d left it without one). Tie to /repo on every run: the real generate / decodeLNT / Position are run through verif hooks on generated rows (boundary deltas, column jumps of 10^4, line gaps of 10^5, negative and wrapping deltas, thousands of rows) and compared with the model and with the independent specification inside Coq; generated Starlark programs with call chains of depth 1-8 through defs, lambdas, closures, comprehensions, built-in callbacks and 27 kinds of failing operation (incl. '+' chains with folded literal runs, argument-binding and recursion-check failures in a fresh callee frame) placed at generator-chosen (line, col) are executed, and EvalError.CallStack / Backtrace() are compared with the positions the generator wrote, before and after a serialisation round trip, and on a cold thread as well as on a thread that ran unrelated deep calls before (the report must not depend on history); generated call histories with a probe built-in recording thread.CallStack() are replayed through the event machine of Stack.v.",
+    "text": "Coq theorems over a model (Go integer widths explicit) of the pc->(line,col) table of internal/compile/compile.go: clip, the delta-encoding loop of fcomp.generate (4-bit pc, 5-bit line, 6-bit column deltas, continuation bit, uint16 packing), Funcode.decodeLNT and the binary search of Funcode.Position. lnt_roundtrip: for ALL instruction lists with uint32 pc and int32 line/col (any deltas, wrap-around included, any length) decodeLNT(encode rows) = the positioned rows; the encoder's inner loop terminates within a proved bound and never panics; position_lookup: the binary search returns the last row with pc' <= pc for every table length; the shift/mask bridge is a complete enumeration of the 65536 field combinations inside Coq. callstack_shape: over an abstract call/step/return/fail event machine mirroring starlark.Call / CallInternal (fr.pc saved before each instruction, push/pop, error wrapped once with a copy of the frame stack) the CallStack attached to the error is exactly the list of active calls, outermost first, each at its pending call / failing instruction. slice_carries_position: the repaired compiler puts the position of '[' on the SLICE instruction for every slice expression (History.v: the code before fix 103924d left it without one). Tie to /repo on every run: the real generate / decodeLNT / Position are run through verif hooks on generated rows (boundary deltas, column jumps of 10^4, line gaps of 10^5, negative and wrapping deltas, thousands of rows) and compared with the model and with the independent specification inside Coq; generated Starlark programs with call chains of depth 1-8 through defs, lambdas, closures, comprehensions, built-in callbacks and 31 kinds of failing operation, each expression kind placed in 18 syntactic contexts (value, statement, if/elif/while condition bare, negated, inside and/or, parenthesised, conditional-expression test, comprehension filter, call argument, default value, list element), failing stores (x[i] = v, x.f = v, x[i] op= v, x.f op= v, sequence-assignment targets on immutable / frozen / being-iterated receivers) (incl. '+' chains with folded literal runs, argument-binding and recursion-check failures in a fresh callee frame) placed at generator-chosen (line, col) are executed, and EvalError.CallStack / Backtrace() are compared with the positions the generator wrote, before and after a serialisation round trip, and on a cold thread as well as on a thread that ran unrelated deep calls before (the report must not depend on history); freshly loaded programs with big functions are failed in by 8 threads at once (every thread's CallStack must be right); generated call histories with a probe built-in recording thread.CallStack() are replayed through the event machine of Stack.v.",
     "note": "Trusted: Coq kernel + vm_compute; the correspondence harness and its program generator (expected positions are the positions of the operator tokens the generator wrote). Not modelled in Coq: the compiler's setPos discipline (which instruction carries which token's position) and the interpreter loop itself -- both are exercised by the generated programs only. Position tables with decreasing pc are covered by the theorem but not run on the real encoder (2^32/15 entries).",
     "technique": "Coq proof over executable model + differential correspondence (vm_compute) + Spec.v oracle + generated failing programs with known positions",
 }
@@ -185,7 +185,7 @@ def run(ctx):
     ncodec_terms = len(terms)
 
     # ------------------------------------------------ 2. generated failing programs
-    nprog = 174 if quick else 5800
+    nprog = 210 if quick else 5950
     nlnt = 8 if quick else 150
     progs = ctx.jsonl([hx, "-mode", "prog", "-seed", str(ctx.seed), "-n", str(nprog), "-lnt", str(nlnt)], timeout=800)
     ctx.log("prog: %d generated failing programs executed" % len(progs))
@@ -200,8 +200,9 @@ def run(ctx):
             dist["prog:link:" + l] = dist.get("prog:link:" + l, 0) + 1
         for l in (p["layout"].split(",") if p["layout"] else ["plain"]):
             layouts[l] = layouts.get(l, 0) + 1
+        dist["prog:ctx:" + p.get("ctx", "?")] = dist.get("prog:ctx:" + p.get("ctx", "?"), 0) + 1
         dist["prog:depth:%d" % min(p["depth"], 12)] = dist.get("prog:depth:%d" % min(p["depth"], 12), 0) + 1
-        replay = {"cmd": "c16 -mode one -seed %d -i %d  (prints the program)" % (p["seed"], p["i"]), "fail": p["fail"], "links": p["links"],
+        replay = {"cmd": "c16 -mode one -seed %d -i %d  (prints the program)" % (p["seed"], p["i"]), "fail": p["fail"], "context": p.get("ctx"), "links": p["links"],
                   "layout": p["layout"], "expected": p["expected"], "got": p["got"], "got_after_serialisation": p["got_ser"],
                   "backtrace": p.get("bt", ""), "error": p["err"], "src": p.get("src", "(large; regenerate with cmd)")}
         if p.get("problem"):
@@ -280,6 +281,25 @@ def run(ctx):
             costs.append(3 * len(t["events"]) + 10)
     ctx.log("trace: %d generated histories (%d also run through the machine of Stack.v)" % (len(traces), ntr))
 
+    # ------------------------------------------------ 2c. several threads failing at once in a freshly loaded frozen function
+    nconc = 3 if quick else 40
+    concs = ctx.jsonl([hx, "-mode", "conc", "-seed", str(ctx.seed), "-n", str(nconc), "-reloads", "6" if quick else "10", "-threads", "8"], timeout=800)
+    nwin = 0
+    for c in concs:
+        if c.get("problem"):
+            ctx.broken("generator:C16", "concurrent case unusable (%s): seed %s case %s" % (c["problem"][:200], c["seed"], c["i"]))
+            continue
+        nwin += c["reloads"] * c["funcs"]
+        dist["conc:lookups"] = dist.get("conc:lookups", 0) + c["lookups"]
+        rep = {"cmd": "c16 -mode conc -seed %d -n %d -reloads %d -threads %d (case i=%d)" % (c["seed"], c["i"] + 1, c["reloads"], c["threads"], c["i"]),
+               "expected": c.get("expected"), "got": c.get("got"), "wrong": c["wrong"], "lookups": c["lookups"], "rows_per_function": c["rows"]}
+        if c.get("panic"):
+            ctx.finding("concurrent:panic", "host panic while several threads failed in the same frozen function: " + c["panic"], rep)
+        if c["wrong"]:
+            ctx.finding("concurrent:position", "%d of %d threads failing at the same time in a freshly loaded frozen function (about %d position rows) got a wrong call stack, e.g. %s instead of %s"
+                        % (c["wrong"], c["lookups"], c["rows"], c.get("got"), c.get("expected")), rep)
+    ctx.log("conc: %d programs, %d first-lookup windows with 8 threads each" % (len(concs), nwin))
+
     # ------------------------------------------------ 3. model and specification inside Coq
     ctx.log("evaluating %d cases in Coq (%d codec, %d real function tables, %d histories; %d cost units)" % (len(terms), ncodec_terms, len(terms) - ncodec_terms - ntr, ntr, sum(costs)))
     bad_model, bad_spec = par_mismatches(ctx, "c16_cases", HEADER + CASEDEFS, terms, costs, ["model_ok", "spec_ok"],
@@ -303,9 +323,9 @@ def run(ctx):
         ctx.broken("correspondence:C16.Model", "model and implementation differ on %d case(s) where the specification is met, e.g. %s" % (len(only_model), str(refs[only_model[0]])[:600]))
     nontrivial = sum(1 for c in cases if c["ntab"] > c["nrows"]) + sum(1 for p in progs if p["layout"])
     cov = {
-        "evaluations": len(cases) + len(progs) + len(traces),
+        "evaluations": len(cases) + len(progs) + len(traces) + sum(c.get("lookups", 0) for c in concs),
         "distinct_nontrivial": nontrivial,
-        "rule": "codec: 11 generator classes x seeded cases run through the real generate/decodeLNT/Position (all checked by an independent Go oracle; those within the size budget also by C16.Model and C16.Spec inside Coq); nontrivial = cases with at least one saturated delta (continuation entry) + programs with at least one wide column / line gap / many-instruction layout. prog: 27 failing-operation kinds x 13 link kinds x depth 1-8, positions chosen by the generator; CallStack and Backtrace compared frame by frame, also after serialisation",
+        "rule": "codec: 11 generator classes x seeded cases run through the real generate/decodeLNT/Position (all checked by an independent Go oracle; those within the size budget also by C16.Model and C16.Spec inside Coq); nontrivial = cases with at least one saturated delta (continuation entry) + programs with at least one wide column / line gap / many-instruction layout. prog: 31 failing-operation kinds x 18 syntactic contexts x 13 link kinds x depth 1-8, positions chosen by the generator; CallStack and Backtrace compared frame by frame, also after serialisation",
         "samples": samples + [{k2: c[k2] for k2 in ("class", "line", "col", "rows", "tab", "dec") if k2 in c} for c in cases[:40] if not c.get("big") and c["ntab"] < 40][:3],
         "distribution": dist,
         "coq_cases": len(terms), "coq_table_entries": sum((r["ntab"] if "ntab" in r else len(r.get("tab") or [])) for r in refs), "go_oracle_only_cases": go_only,
